@@ -583,7 +583,7 @@ impl<'a> Explorer<'a> {
         let min = cfg.sink.min_cap();
         let base_fill: u8 = if cfg.sink == Sink::Str { 0x25 } else { 0xA5 };
         let method = if cfg.mixed_sink || !cfg.methods.is_empty() { Call::method_of(repl, sink) } else if cfg.mixed { repl as u8 } else { 2 };
-        let call = Call { src: src.to_vec(), cap, last, fill: base_fill, dalign, salign, method };
+        let call = Call { src: src.to_vec(), cap, last, fill: base_fill, dalign, salign, method, prior: None };
         l.stats.transitions += 1;
         let mut dec = key.dec.clone();
         let d = Dst { cap, fill: base_fill, align: dalign as usize, prior: None };
@@ -710,11 +710,16 @@ impl<'a> Explorer<'a> {
                     let res2 = call_decoder(&mut d2, cfg.sink, repl, src, last, &dd);
                     match res2 {
                         Ok(o2) => {
+                            let mut cp = call.clone();
+                            cp.prior = Some(p.clone());
+                            cp.dalign = 0;
                             if o2.whole_invalid {
-                                self.vio(l, "C05", "destination-left-invalid", format!("prior content {:?}: the &mut str is not valid UTF-8 after the call (written {})", p, o2.written), id, &call);
+                                l.cur_obs = Some(obs_canon(&o2, false));
+                                self.vio(l, "C05", "destination-left-invalid", format!("prior content {:?}: the &mut str is not valid UTF-8 after the call (written {})", p, o2.written), id, &cp);
                             }
                             if o2.res != o.res || o2.read != o.read || o2.out8 != o.out8 {
-                                self.vio(l, "C18", "result-depends-on-prefill", format!("prior str content {:?} changes the result", p), id, &call);
+                                l.cur_obs = Some(obs_canon(&o2, false));
+                                self.vio(l, "C18", "result-depends-on-prefill", format!("prior str content {:?} changes the result", p), id, &cp);
                             }
                         }
                         Err(m) => {
@@ -1451,10 +1456,14 @@ pub fn replay(j: &J) -> Result<J, String> {
         let mut a = vec![];
         for (i, o) in run.obs.iter().enumerate() {
             let sink = calls.get(i).map(|c| c.sink(sink)).unwrap_or(sink);
-            a.push(J::obj().set("result", J::s(&o.res.short())).set("read", J::i(o.read)).set("written", J::i(o.written)).set("out", J::s(&if sink.is_utf16() { hex16(&o.out16) } else { hex(&o.out8) })).set("had_errors", match o.had_errors {
+            let mut cj = J::obj().set("result", J::s(&o.res.short())).set("read", J::i(o.read)).set("written", J::i(o.written)).set("out", J::s(&if sink.is_utf16() { hex16(&o.out16) } else { hex(&o.out8) })).set("had_errors", match o.had_errors {
                 Some(b) => J::Bool(b),
                 None => J::Null,
-            }));
+            });
+            if matches!(sink, Sink::Str | Sink::String) {
+                cj.put("whole_destination_valid_utf8_afterwards", J::Bool(!o.whole_invalid));
+            }
+            a.push(cj);
         }
         let canon: Vec<J> = run.obs.iter().enumerate().map(|(i, o)| J::s(&obs_canon(o, calls.get(i).map(|c| c.sink(sink)).unwrap_or(sink).is_utf16()))).collect();
         let mut r = J::obj().set("calls", J::Arr(a)).set("tokens", J::s(&toks_short(&run.toks))).set("canon", J::Arr(canon));
@@ -1514,9 +1523,19 @@ pub fn replay(j: &J) -> Result<J, String> {
         }
         J::Arr(v)
     };
+    let one_shot = j.get("detail").and_then(|d| d.get("stream")).and_then(|x| x.as_str()).map(|h| unhex(h));
     let render = |run: &DecRun| {
         let mut r = render(run, &calls);
         r.put("queries_before_each_call", queries(&calls));
+        if let (Some(st), BomMode::Off) = (&one_shot, bom) {
+            // sweep cases also exercise the one-shot form on the whole stream
+            let x = std::panic::catch_unwind(|| {
+                let (t, had) = enc.imp.decode_without_bom_handling(st);
+                format!("text {:?} had_errors {}", t, had)
+            })
+            .unwrap_or_else(|_| "panic".into());
+            r.put("one_shot_decode_without_bom_handling", J::s(&x));
+        }
         r
     };
     let a = run_decoder_calls(&enc, bom, sink, repl, &calls)?;
